@@ -190,6 +190,40 @@ class System:
         self.set_model(st.model)
 
 
+def blames_darr(exc):
+    """Did the exception come out of the code under test (a frame in <repo>/darr)?"""
+    import traceback
+    from ..common import REPO
+    root = os.path.join(os.path.realpath(REPO), 'darr') + os.sep
+    return any(os.path.realpath(fs.filename).startswith(root)
+               for fs in traceback.extract_tb(exc.__traceback__))
+
+
+def safe_step(S, op):
+    """S.step(op); an exception escaping from Darr while the harness observes the
+    result is a violation (any oracle), not a harness failure."""
+    try:
+        return S.step(op)
+    except Exception as e:  # noqa: BLE001
+        if not blames_darr(e):
+            raise
+        opdesc = '/'.join(str(x) for x in op)
+        return StepResult(f'unobservable:{type(e).__name__}',
+                          [({'oracle': '*', 'op': opdesc, 'symptom': f'state unobservable after the call: {type(e).__name__}'},
+                            f'after {opdesc} the array cannot be observed any more: {e!r}', {})],
+                          diverged=True)
+
+
+def safe_invariant(S):
+    try:
+        return S.invariant()
+    except Exception as e:  # noqa: BLE001
+        if not blames_darr(e):
+            raise
+        return [({'oracle': '*', 'op': 'observe', 'symptom': f'state unobservable: {type(e).__name__}'},
+                 f'the state cannot be observed: {e!r}', {})]
+
+
 class GraphResult:
     def __init__(self):
         self.states = 0
@@ -248,7 +282,7 @@ def _explore(make_system, cfg, validate_every, max_states, keep, procs):
 
     def record(viols, hist):
         for (sig, what, detail) in viols:
-            if keep is not None and sig.get('oracle') not in keep:
+            if keep is not None and sig.get('oracle') not in keep and sig.get('oracle') != '*':
                 continue
             res.violations.append((sig, what, {'config': cfg, 'history': hist, 'detail': detail}))
 
@@ -257,7 +291,7 @@ def _explore(make_system, cfg, validate_every, max_states, keep, procs):
     seen = {init.canon: 0}
     parent = {0: None}
     depth = {0: 0}
-    record(S.invariant(), [])
+    record(safe_invariant(S), [])
 
     def history(sid):
         h = []
@@ -277,7 +311,7 @@ def _explore(make_system, cfg, validate_every, max_states, keep, procs):
             rows = []
             for op in ops:
                 S.restore(states[sid])
-                r = S.step(op)
+                r = safe_step(S, op)
                 canon = None if r.diverged else S.capture().canon
                 rows.append((list(op), r.label, r.violations, r.diverged, canon))
             out.append((sid, disabled, rows))
@@ -309,7 +343,7 @@ def _explore(make_system, cfg, validate_every, max_states, keep, procs):
                     continue
                 # materialise the new state in this process
                 S.restore(states[sid])
-                S.step(tuple(op))
+                safe_step(S, tuple(op))
                 st = S.capture()
                 if st.canon != canon:
                     raise HarnessError(f'nondeterministic transition {op} from state {sid} of {cfg}')
@@ -319,7 +353,7 @@ def _explore(make_system, cfg, validate_every, max_states, keep, procs):
                 parent[nid] = (sid, op)
                 depth[nid] = depth[sid] + 1
                 res.max_depth = max(res.max_depth, depth[nid])
-                iv = S.invariant()
+                iv = safe_invariant(S)
                 if iv:
                     record(iv, history(nid))
                 nxt.append(nid)
@@ -390,13 +424,14 @@ def _replay_history(make_system, cfg, hist, keep):
     v = S.build()
     out += [(s, w, d) for (s, w, d) in (v or [])]
     if not v:
-        out += S.invariant()
+        out += safe_invariant(S)
         for op in hist:
-            r = S.step(tuple(op))
+            r = safe_step(S, tuple(op))
             out += r.violations
             if r.diverged:
                 break
-            out += S.invariant()
+            out += safe_invariant(S)
     if keep is not None:
-        out = [x for x in out if x[0].get('oracle') in keep or x[0].get('stage') == 'start']
+        out = [x for x in out if x[0].get('oracle') in keep or x[0].get('oracle') == '*'
+               or x[0].get('stage') == 'start']
     return out
